@@ -681,14 +681,24 @@ async def _execute(loop, program, observe=None):
                 yield c.transport['c']
 
         hfc = (program.get('_handler_factory') or {}).get('c')
-        client = RSocketClient(provider(), handler_factory=hfc(scn) if hfc else make_handler_class(scn, 'c'),
-                               fragment_size_bytes=frag[0], **common, **ckw)
+        chf = hfc(scn) if hfc else make_handler_class(scn, 'c')
+        late = cfg.get('late_handler')
+        if late:
+            # the application installs its handler after connecting (set_handler_using_factory), `late` loop iterations later
+            client = RSocketClient(provider(), fragment_size_bytes=frag[0], **common, **ckw)
+        else:
+            client = RSocketClient(provider(), handler_factory=chf, fragment_size_bytes=frag[0], **common, **ckw)
         scn.sock['c'] = client
         if cfg.get('connect_async'):
             connect_task = asyncio.ensure_future(client.connect())
             await asyncio.sleep(0)  # connect() has begun (requests are only issued after that)
         else:
             await client.connect()
+        if late:
+            for _ in range(late):
+                await asyncio.sleep(0)
+            client.set_handler_using_factory(chf)
+            world.ev('c', 'handler_installed_late', ticks=late)
     elif cfg.get('raw_setup', True):
         raw.send_value({'type': 'SETUP', 'sid': 0, 'keepalive': 100000000, 'lifetime': 1000000000,
                         'metadata_mime': b'application/json', 'data_mime': b'application/json', 'metadata': None,
